@@ -451,6 +451,41 @@ def r07g(ctx, rep, cr):
         rep.holds('R07g', f, 'enumerator covers the key slabs', '%s reads %s' % (', '.join(sorted(set(names))), ', '.join(sorted(enum))))
 
 
+NARROWING = re.compile(r'Iterator::(filter|filter_map|skip|skip_while|take|take_while|step_by|find)$|::retain$|::truncate$|::dedup\w*$')
+# one line of reason per exception
+SNAPSHOT_MAY_NARROW = {TS + 'cache_ring::CacheRing::<V>::snapshot': 'the ring is an array of Option slots; filter_map drops the empty slots, not entries'}
+
+
+def r07h(ctx, rep, cr):
+    rep.rule('R07h', 'a slab\'s image is the whole slab: the snapshot() of every slab SlabRouter::snapshot calls copies its containers as '
+                     'they are — no narrowing adaptor (filter, skip, take, retain, …) in the function or in a closure it passes on. What an '
+                     'image leaves out is gone after load / restore_from_bytes / ROLLBACK TO: a table that happens to have no live rows is '
+                     'still a table (its schema key comes back, the slab table does not, and SELECT fails with `table not found`)')
+    f = rep.require_fn('R07h', cr, SR + '::snapshot')
+    if f is None:
+        return
+    snaps = sorted({c.resolved for c in A.calls(f) if re.search(r'::snapshot$', c.resolved) and c.resolved.startswith(TS) and c.resolved in cr.fns})
+    if not rep.floor('R07h', 'slab snapshot functions called by SlabRouter::snapshot', len(snaps), 4):
+        return
+    for nm in snaps:
+        g = cr.fns[nm]
+        rep.analysed(g)
+        nar = set()
+        for h in A.with_closures(cr.fns, nm):
+            for c in A.calls(h):
+                for x in (c.resolved, c.generic):
+                    if NARROWING.search(x):
+                        nar.add(lib.short(x))
+        if nar and nm in SNAPSHOT_MAY_NARROW:
+            rep.holds('R07h', g, 'snapshot', 'narrowing allowed here: %s' % SNAPSHOT_MAY_NARROW[nm])
+        elif nar:
+            rep.violation('R07h', g, 'partial-image', g.loc(),
+                          'the slab\'s snapshot passes its contents through %s: whatever is filtered out is missing from every snapshot, '
+                          'checkpoint and rollback image' % ', '.join(sorted(nar)))
+        else:
+            rep.holds('R07h', g, 'snapshot', 'copies its containers whole')
+
+
 def run(ctx, rep):
     cr = ctx.crate('tensor_store')
     r07a(ctx, rep, cr)
@@ -460,3 +495,4 @@ def run(ctx, rep):
     r07e(ctx, rep, cr)
     r07f(ctx, rep, cr)
     r07g(ctx, rep, cr)
+    r07h(ctx, rep, cr)
